@@ -53,21 +53,24 @@ fn scenarios(thorough: bool) -> Vec<Scenario> {
     let c = || "ca".to_string();
     let p = || "parent".to_string();
     let mut v = vec![
-        Scenario { name: "roa-add", prefix: vec![], cold: false, before: vec![], op: Op::Roa { ca: c(), add: vec!["10.0.2.0/24 => 65000".into()], del: vec![] } },
-        Scenario { name: "roa-add-cold", prefix: vec![], cold: true, before: vec![], op: Op::Roa { ca: c(), add: vec!["10.0.2.0/24 => 65000".into()], del: vec![] } },
         // one more accepted command before: the aggregate cache is refreshed
         // lazily, so whether the entry is current when the cut command runs
         // depends on the history before it
         Scenario { name: "roa-add-after-another", prefix: vec![], cold: false, before: vec![Op::Roa { ca: c(), add: vec!["10.0.3.0/24 => 65003".into()], del: vec![] }], op: Op::Roa { ca: c(), add: vec!["10.0.2.0/24 => 65000".into()], del: vec![] } },
-        Scenario { name: "entitlement-shrink", prefix: vec![], cold: false, before: vec![], op: Op::Entitle { parent: p(), child: c(), res: r3("AS65000-AS65005", "10.0.0.0/16", "2001:db8::/48") } },
-        Scenario { name: "roll-init", prefix: vec![], cold: false, before: vec![], op: Op::RollInit { ca: c() } },
         Scenario { name: "roll-activate", prefix: vec![Op::RollInit { ca: c() }], cold: false, before: vec![], op: Op::RollActivate { ca: c() } },
         // a snapshot round (the daily task) after changes: every aggregate's
         // snapshot and the repository content log's snapshot + change sets
         // a publisher with content is removed: two stores (access aggregate,
         // content log) and the served files have to agree afterwards
         Scenario { name: "publisher-removed", prefix: vec![Op::AddCa { ca: "alice".into() }, Op::PubDelta { publisher: "alice".into(), elems: vec![crate::ops::PubEl::Publish { uri: "rsync://localhost/repo/alice/a.txt".into(), content: 1 }] }], cold: false, before: vec![], op: Op::RemovePublisher { publisher: "alice".into() } },
+        // a CA gives up a parent: revocation at the parent, class removal in
+        // the CA and in its published-object set, withdrawal
+        Scenario { name: "parent-removed", prefix: vec![], cold: false, before: vec![], op: Op::RemoveParent { ca: "gc".into(), parent: c() } },
         Scenario { name: "snapshots-after-changes", prefix: vec![Op::Snapshots, Op::Roa { ca: c(), add: vec!["10.0.4.0/24 => 65000".into()], del: vec![] }], cold: false, before: vec![], op: Op::Snapshots },
+        Scenario { name: "entitlement-shrink", prefix: vec![], cold: false, before: vec![], op: Op::Entitle { parent: p(), child: c(), res: r3("AS65000-AS65005", "10.0.0.0/16", "2001:db8::/48") } },
+        Scenario { name: "roll-init", prefix: vec![], cold: false, before: vec![], op: Op::RollInit { ca: c() } },
+        Scenario { name: "roa-add", prefix: vec![], cold: false, before: vec![], op: Op::Roa { ca: c(), add: vec!["10.0.2.0/24 => 65000".into()], del: vec![] } },
+        Scenario { name: "roa-add-cold", prefix: vec![], cold: true, before: vec![], op: Op::Roa { ca: c(), add: vec!["10.0.2.0/24 => 65000".into()], del: vec![] } },
     ];
     if thorough {
         v.extend([
@@ -77,6 +80,7 @@ fn scenarios(thorough: bool) -> Vec<Scenario> {
             Scenario { name: "entitlement-grow-cold", prefix: vec![Op::Entitle { parent: p(), child: c(), res: r3("AS65000-AS65005", "10.0.0.0/16", "2001:db8::/48") }], cold: true, before: vec![], op: Op::Entitle { parent: p(), child: c(), res: r3("AS65000-AS65005", "10.0.0.0/16, 10.1.0.0/16", "2001:db8::/48") } },
             Scenario { name: "republish-after-a-day", prefix: vec![Op::Tick { secs: 86400 }], cold: false, before: vec![], op: Op::Republish { force: false } },
             Scenario { name: "roll-init-rolling-parent", prefix: vec![Op::RollInit { ca: p() }], cold: false, before: vec![], op: Op::RollInit { ca: c() } },
+            Scenario { name: "child-removed", prefix: vec![], cold: false, before: vec![], op: Op::RemoveChild { parent: c(), child: "gc".into() } },
             Scenario { name: "update-id", prefix: vec![], cold: false, before: vec![], op: Op::UpdateId { ca: c() } },
         ]);
     }
@@ -189,6 +193,7 @@ fn target_ca(op: &Op) -> String {
     match op {
         Op::Roa { ca, .. } | Op::AspaSet { ca, .. } | Op::BgpsecAdd { ca, .. } | Op::RollInit { ca } | Op::RollActivate { ca } | Op::UpdateId { ca } => ca.clone(),
         Op::Entitle { parent, .. } | Op::RemoveChild { parent, .. } | Op::Suspend { parent, .. } => parent.clone(),
+        Op::RemoveParent { ca, .. } => ca.clone(),
         _ => "ca".into(),
     }
 }
@@ -334,7 +339,16 @@ pub fn run(tier: &Tier, args: &[String]) -> i32 {
     let mut evaluations = 0u64;
     let mut per_scenario = Vec::new();
     let mut cut_kinds: BTreeMap<String, u64> = BTreeMap::new();
+    // quick tier: scenarios are taken in the order of the list until the
+    // wall budget is used up (a scenario that was started is always
+    // finished); what was left out is reported, never silently dropped
+    let budget = crate::report::arg_value(args, "--cap").and_then(|d| d.parse::<u64>().ok()).unwrap_or(if tier.thorough { 3600 } else { 75 });
+    let mut skipped: Vec<&str> = Vec::new();
     for (si, sc) in scs.iter().enumerate() {
+        if out.started.elapsed().as_secs() >= budget {
+            skipped.push(sc.name);
+            continue;
+        }
         // phase 1 (one process): build the state, record the mutation log
         // and the twin's observable state
         let dir = root.join(format!("s{si}"));
@@ -571,7 +585,10 @@ pub fn run(tier: &Tier, args: &[String]) -> i32 {
         "rule": "every scenario x every mutation index of the operation and its background tasks x {crash before it, that mutation failing once}; the survivor (fresh instance after the crash; the same instance after the failing write) must load every entity, have consistent repository files, not have lost an acknowledged command, hold in memory what storage replays to, and after background tasks, re-submission and settling equal the fault-free twin on the observable projection and be relying-party valid",
         "scenarios": per_scenario,
         "cut_kinds": cut_kinds,
-        "exhaustive": true,
+        "exhaustive": skipped.is_empty(),
+        "cap_hit": !skipped.is_empty(),
+        "wall_budget_s": budget,
+        "scenarios_not_started_within_budget": skipped,
     });
     out.finish()
 }
